@@ -69,9 +69,19 @@ typedef struct pointer_pair {
 } __attribute__((__aligned__(2 * sizeof(void*)))) __attribute__((__packed__))
 pointer_pair_t;
 
+#ifdef LIBFIBER_VERIF
+/* verification hooks (see /verif): the double-word CAS is inline assembly, so
+ * compiler instrumentation cannot see it; these make it a scheduling point */
+extern void verif_dcas_before(volatile void* location);
+extern void verif_dcas_after(volatile void* location, int result);
+#endif
+
 static inline int compare_and_swap2(volatile pointer_pair_t* location,
                                     const pointer_pair_t* original_value,
                                     const pointer_pair_t* new_value) {
+#ifdef LIBFIBER_VERIF
+  verif_dcas_before(location);
+#endif
 #if defined(__i386__)
   return __sync_bool_compare_and_swap(
       (uint64_t*)location, *(uint64_t*)original_value, *(uint64_t*)new_value);
@@ -84,6 +94,9 @@ static inline int compare_and_swap2(volatile pointer_pair_t* location,
       : "d"(original_value->high), "a"(original_value->low),
         "c"(new_value->high), "b"(new_value->low)
       : "cc");
+#ifdef LIBFIBER_VERIF
+  verif_dcas_after(location, result);
+#endif
   return result;
 #else
 #error please define a compare_and_swap2()
